@@ -11,6 +11,7 @@ import (
 	"errors"
 	"fmt"
 	"math/big"
+	"sync"
 	"time"
 
 	"github.com/ethereum/go-ethereum/beacon/engine"
@@ -504,6 +505,7 @@ func (b *ELBlock) executable() *engine.ExecutableData {
 
 // ELChain is the shared model: block tree, pending user operations.
 type ELChain struct {
+	mu      sync.Mutex // handlers of abandoned calls may still run in free mode (race build)
 	Blocks  map[common.Hash]*ELBlock
 	Genesis *ELBlock
 	Pool    []*ELOp
@@ -753,7 +755,11 @@ func (n *ELNode) restart() {
 	n.Known = known
 }
 
-func (n *ELNode) arm(f []*EngineFault) { n.Faults = f }
+func (n *ELNode) arm(f []*EngineFault) {
+	n.Chain.mu.Lock()
+	n.Faults = f
+	n.Chain.mu.Unlock()
+}
 
 // syncFromPeers models what a geth node does after it answered SYNCING: it fetches blocks that
 // other nodes made canonical. Called before a block hash is looked up.
@@ -769,6 +775,8 @@ func (n *ELNode) syncFromPeers(h common.Hash) {
 }
 
 func (n *ELNode) takeFault(call string) *EngineFault {
+	n.Chain.mu.Lock()
+	defer n.Chain.mu.Unlock()
 	for _, f := range n.Faults {
 		if !f.used && f.Call == call {
 			f.used = true
@@ -856,6 +864,8 @@ func (api *engineAPI) ForkchoiceUpdatedV3(ctx context.Context, state engine.Fork
 		return engine.ForkChoiceResponse{}, err
 	}
 	defer h.Exit()
+	n.Chain.mu.Lock()
+	defer n.Chain.mu.Unlock()
 	status := func(s string, verr *string) engine.ForkChoiceResponse {
 		return engine.ForkChoiceResponse{PayloadStatus: engine.PayloadStatusV1{Status: s, ValidationError: verr}}
 	}
@@ -937,6 +947,8 @@ func (api *engineAPI) GetPayloadV4(ctx context.Context, id engine.PayloadID) (*e
 		return nil, err
 	}
 	defer h.Exit()
+	n.Chain.mu.Lock()
+	defer n.Chain.mu.Unlock()
 	blk := n.Builds[id]
 	if blk == nil || (f != nil && f.Kind == "unknownpayload") {
 		n.record("getPayload", digest, "unknown", f)
@@ -960,6 +972,8 @@ func (api *engineAPI) NewPayloadV4(ctx context.Context, data engine.ExecutableDa
 		return engine.PayloadStatusV1{}, err
 	}
 	defer h.Exit()
+	n.Chain.mu.Lock()
+	defer n.Chain.mu.Unlock()
 	if f != nil {
 		switch f.Kind {
 		case "invalid":
